@@ -22,7 +22,12 @@ r = sh("/venv/bin/python %s/demo.py" % cand, timeout=1800)
 log["demo_without_patch"] = r.returncode
 r = sh("git apply %s/patch.diff" % cand)
 assert r.returncode == 0, "patch does not apply: " + r.stderr
+REBUILD = "/venv/bin/python setup.py build_ext --inplace >/dev/null 2>&1"      # changes to ethosu/mlw_codec/*.c
+touches_c = "mlw_codec/" in open(os.path.join(cand, "patch.diff")).read()
 try:
+    if touches_c:
+        assert sh(REBUILD).returncode == 0, "extension does not build"
+        log["extension_rebuilt"] = True
     r = sh("/venv/bin/python -m pytest -q -p no:cacheprovider --timeout=900 -n 8 ethosu 2>&1 | tail -1", timeout=3600)
     log["tests_with_patch"] = r.stdout.strip()
     r = sh("/venv/bin/python %s/demo.py" % cand, timeout=1800)
@@ -30,6 +35,8 @@ try:
     log["demo_output_tail"] = (r.stdout + r.stderr)[-600:]
 finally:
     sh("git checkout -- .")
+    if touches_c:
+        sh(REBUILD)
 ok = log["demo_without_patch"] == 0 and log["demo_with_patch"] != 0 and "539 passed" in log["tests_with_patch"] \
     and "4 failed" in log["tests_with_patch"]
 print(json.dumps(log, indent=1))
